@@ -8,6 +8,7 @@ import (
 	"math/big"
 	"sort"
 	"strings"
+	"time"
 
 	"golang.org/x/tools/go/ssa"
 )
@@ -126,6 +127,7 @@ type VC struct {
 	defLine    map[string]int
 	defLineN   int
 	pathNote   string
+	globalsAssumed map[string]bool
 	order      []*ssa.BasicBlock
 	done       bool
 	retsP      *[]inlRet
@@ -837,7 +839,7 @@ func (vc *VC) Generate() (err error) {
 		t := vc.declare("fv_"+fv.Name(), vc.pre.sortOf(fv.Type()))
 		vc.vals[fv] = t
 	}
-	vc.globalFacts()
+	vc.assumeConstGlobals(fn)
 	if c != nil {
 		env := vc.entryEnv(vc.st, vc.st)
 		for _, r := range c.Requires {
@@ -860,8 +862,6 @@ func (vc *VC) Generate() (err error) {
 	return nil
 }
 
-// globalFacts: axioms from specs are global asserts; nothing per function for now.
-func (vc *VC) globalFacts() {}
 
 func (vc *VC) block(b *ssa.BasicBlock) {
 	// entry reach/state
@@ -1950,6 +1950,12 @@ func (vc *VC) ret(ins *ssa.Return) {
 		for _, ga := range c.Epilogue {
 			vc.ghostAssign(env, ga, vc.st)
 		}
+		type pend struct {
+			name, goal string
+			e          *Clause
+		}
+		var pends []pend
+		var allGoals strings.Builder
 		for _, e := range c.Ensures {
 			if !vc.clauseOn(e) || e.Trusted {
 				continue
@@ -1958,7 +1964,13 @@ func (vc *VC) ret(ins *ssa.Return) {
 			if len(e.Labels) == 0 {
 				name = fmt.Sprintf("ensures@%d", e.Line)
 			}
-			vc.oblige(name, "post", fmt.Sprintf("return #%d (%s): %s", vc.retCount, vc.P.Fset.Position(ins.Pos()), e.Text), vc.evalGoal(env, e.E, e), e)
+			g := vc.evalGoal(env, e.E, e)
+			allGoals.WriteString(g)
+			pends = append(pends, pend{name, g, e})
+		}
+		vc.assumeGlobalsIn(allGoals.String())
+		for _, p := range pends {
+			vc.oblige(p.name, "post", fmt.Sprintf("return #%d (%s): %s", vc.retCount, vc.P.Fset.Position(ins.Pos()), p.e.Text), p.goal, p.e)
 		}
 		if c.HasMod {
 			vc.frameCheck(c)
@@ -2081,4 +2093,43 @@ func specNames(e Expr) []string {
 	}
 	walk(e)
 	return out
+}
+
+// GenerateLemmas builds the unit that checks the lemmas labelled for the property: closed statements
+// over constant globals, ghost functions and their axioms (no code).
+func (vc *VC) GenerateLemmas(lemmas []*Clause) (err error) {
+	defer func() {
+		if r := recover(); r != nil {
+			if ee, ok := r.(evalErr); ok {
+				err = fmt.Errorf("lemmas: %s", string(ee))
+				return
+			}
+			panic(r)
+		}
+	}()
+	vc.cur = "true"
+	vc.st = &State{h: map[string]string{}}
+	vc.entry = vc.st
+	for _, l := range lemmas {
+		if l.Kind == "ground" {
+			t0 := time.Now()
+			ok, wit, steps, err := vc.P.EvalGround(l, vc.P.Spec.LemmaPkg[l])
+			if err != nil {
+				return err
+			}
+			o := &Obligation{Func: vc.key, Name: "[" + strings.Join(l.Labels, ",") + "]", Kind: "ground", Detail: fmt.Sprintf("%s (%d evaluation steps)", l.Text, steps), Clause: l, Goal: "true", Guard: "true",
+				Solver: "ground-eval", Ms: time.Since(t0).Milliseconds(), Result: "unsat", Site: token.Position{Filename: l.File, Line: l.Line}}
+			if !ok {
+				o.Result, o.Model = "sat", "ground counterexample: "+wit
+			}
+			vc.obls = append(vc.obls, o)
+			continue
+		}
+		env := &Env{vc: vc, pkgPath: vc.P.Spec.LemmaPkg[l], vars: map[string]TV{}, cur: vc.st, old: vc.st}
+		g := vc.evalGoal(env, l.E, l)
+		vc.assumeGlobalsIn(g)
+		name := "[" + strings.Join(l.Labels, ",") + "]"
+		vc.oblige(name, "lemma", l.Text, g, l)
+	}
+	return nil
 }
